@@ -425,6 +425,15 @@ def _check_decimal_class(rep: Report, m) -> None:
         rets = [n for n in ast.walk(fi.node) if isinstance(n, ast.Return) and n.value is not None]
         want = f"RP2Decimal(Decimal.{name}(self, other))" if name != "__neg__" else "RP2Decimal(Decimal.__neg__(self))"
         exact = bool(rets) and all(unparse(x.value) == want for x in rets)
+        if not exact:
+            # read through helpers: the operator's value as a term must be RP2Decimal(<Decimal's own operator on the same operands>) and nothing else
+            params = fi.param_names[1:]
+            t = m.norm.inline(fi, ("sym", "self"), {p_: (("sym", p_), ("cls", "decimal:Decimal")) for p_ in params}, Ctx(fi.module, ci))
+            want_t = ("new", "rp2.rp2_decimal:RP2Decimal", (("#0", ("xcall", f"decimal.Decimal.{name}", None, tuple([("sym", "self")] + [("sym", p_) for p_ in params]), ())),))
+            exact = tkey(t) == tkey(want_t)
+            if not exact and t[0] != "call":
+                rep.violation(r, ci.module, fi.qualname, f"{name}: operand type-checked, exact Decimal result re-wrapped", f"RP2Decimal.{name} evaluates to {show(t)[:260]}; expected RP2Decimal(Decimal.{name}(self, other)) and nothing else: any rounding, snapping to zero or re-scaling inside an operator changes every amount computed with it", loc(fi.node), definite=True)
+                continue
         guard_ok = name == "__neg__" or any(
             isinstance(n, ast.If) and "isinstance(other, Decimal)" in unparse(n.test) and any(isinstance(b, ast.Raise) for b in n.body) for n in ast.walk(fi.node)
         )
